@@ -42,6 +42,7 @@
 #include <boost/msm/front/history_policies.hpp>
 #include <boost/msm/active_state_switching_policies.hpp>
 #include <boost/any.hpp>
+#include <boost/fusion/include/mpl.hpp>   // interrupt_state<mpl::vector<...>> needs mpl sequences adapted to fusion
 
 #ifdef VERIF_VISITABLE
 #include <boost/msm/back/args.hpp>
